@@ -43,7 +43,16 @@ type Event struct {
 	ID     string // token / free-floating id, state number …
 	A, B   Lin    // ff: the (a,b) arguments
 	TS, TE Lin    // cursor values when the event happened
+	P      Lin    // the cursor when the event happened
 	At     token.Pos
+}
+
+// CondRec is one branch decision of a path: the condition, the way it went, and the cursor at that moment.
+type CondRec struct {
+	X     ast.Expr
+	Neg   bool
+	P     Lin
+	Bytes map[types.Object]Lin // locals that hold lex.data[<index>] at that moment
 }
 
 // Outcome is one path through an action block.
@@ -52,7 +61,11 @@ type Outcome struct {
 	Events    []Event
 	Exit      string // goto target: stN, _again, _out
 	Conds     []string
+	CondX     []CondRec
 	Undec     []string
+	bytes     map[types.Object]Lin
+	isDefault bool
+	defaultAt int
 }
 
 func (o *Outcome) clone() *Outcome {
@@ -60,6 +73,13 @@ func (o *Outcome) clone() *Outcome {
 	n.Events = append([]Event(nil), o.Events...)
 	n.Conds = append([]string(nil), o.Conds...)
 	n.Undec = append([]string(nil), o.Undec...)
+	n.CondX = append([]CondRec(nil), o.CondX...)
+	if o.bytes != nil {
+		n.bytes = map[types.Object]Lin{}
+		for k, v := range o.bytes {
+			n.bytes[k] = v
+		}
+	}
 	return &n
 }
 
@@ -157,6 +177,26 @@ func (m *Machine) lin(e ast.Expr, o *Outcome) (Lin, bool) {
 	return Lin{}, false
 }
 
+func copyBytes(m map[types.Object]Lin) map[types.Object]Lin {
+	if len(m) == 0 {
+		return nil
+	}
+	r := map[types.Object]Lin{}
+	for k, v := range m {
+		r[k] = v
+	}
+	return r
+}
+
+// dataIndex: e is lex.data[<linear expression>]; the index as a Lin.
+func (m *Machine) dataIndex(e ast.Expr, o *Outcome) (Lin, bool) {
+	ix, ok := unparen(e).(*ast.IndexExpr)
+	if !ok || types.ExprString(unparen(ix.X)) != "lex.data" {
+		return Lin{}, false
+	}
+	return m.lin(ix.Index, o)
+}
+
 func unparen(e ast.Expr) ast.Expr {
 	for {
 		p, ok := e.(*ast.ParenExpr)
@@ -173,7 +213,7 @@ func (m *Machine) exec(st ast.Stmt, o *Outcome) []*Outcome {
 		return []*Outcome{o}
 	}
 	ev := func(kind, id string) {
-		o.Events = append(o.Events, Event{Kind: kind, ID: id, TS: o.TS, TE: o.TE, At: st.Pos()})
+		o.Events = append(o.Events, Event{Kind: kind, ID: id, TS: o.TS, TE: o.TE, P: o.P, At: st.Pos()})
 	}
 	switch x := st.(type) {
 	case *ast.EmptyStmt:
@@ -250,7 +290,21 @@ func (m *Machine) exec(st ast.Stmt, o *Outcome) []*Outcome {
 			return []*Outcome{o}
 		}
 		if id, ok := unparen(x.Lhs[0]).(*ast.Ident); ok {
-			_ = id // locals: s, base, c, isDocComment, lblStart, lblEnd, _
+			// locals: s, base, c, isDocComment, lblStart, lblEnd, _ ; a local that holds a byte of the input is remembered
+			obj := m.info().ObjectOf(id)
+			if obj != nil {
+				if o.bytes != nil {
+					delete(o.bytes, obj)
+				}
+				if len(x.Rhs) == 1 {
+					if ix, ok := m.dataIndex(x.Rhs[0], o); ok {
+						if o.bytes == nil {
+							o.bytes = map[types.Object]Lin{}
+						}
+						o.bytes[obj] = ix
+					}
+				}
+			}
 			return []*Outcome{o}
 		}
 		return undec("assignment to " + lhs)
@@ -304,6 +358,11 @@ func (m *Machine) exec(st ast.Stmt, o *Outcome) []*Outcome {
 			ev("error", "")
 		case "lex.newLines.Append":
 			ev("newline", types.ExprString(call.Args[0]))
+			if v, ok := m.lin(call.Args[0], o); ok {
+				o.Events[len(o.Events)-1].A = v
+			} else {
+				o.Events[len(o.Events)-1].ID = "?" + types.ExprString(call.Args[0])
+			}
 		default:
 			// a method of the scanner that is not part of the vocabulary: interpret its body in place
 			// (a helper extracted from the action code). Its statements must themselves be in the
@@ -337,6 +396,8 @@ func (m *Machine) exec(st ast.Stmt, o *Outcome) []*Outcome {
 		cond := types.ExprString(x.Cond)
 		t := o.clone()
 		t.Conds = append(t.Conds, cond)
+		t.CondX = append(t.CondX, CondRec{X: x.Cond, P: o.P, Bytes: copyBytes(o.bytes)})
+		o.CondX = append(o.CondX, CondRec{X: x.Cond, Neg: true, P: o.P, Bytes: copyBytes(o.bytes)})
 		if strings.Contains(cond, "lex.is") {
 			t.Events = append(t.Events, Event{Kind: "pred", ID: cond, TS: t.TS, TE: t.TE, At: st.Pos()})
 		}
@@ -356,21 +417,51 @@ func (m *Machine) exec(st ast.Stmt, o *Outcome) []*Outcome {
 		}
 		var outs []*Outcome
 		hasDefault := false
+		var before []CondRec // the negated conditions of the clauses above
+		mk := func(e ast.Expr) ast.Expr {
+			if x.Tag == nil {
+				return e
+			}
+			return &ast.BinaryExpr{X: x.Tag, Op: token.EQL, Y: e}
+		}
 		for _, c := range x.Body.List {
 			cc := c.(*ast.CaseClause)
 			if cc.List == nil {
 				hasDefault = true
 			}
 			var labels []string
+			var disj ast.Expr
 			for _, e := range cc.List {
 				labels = append(labels, types.ExprString(e))
+				if disj == nil {
+					disj = mk(e)
+				} else {
+					disj = &ast.BinaryExpr{X: disj, Op: token.LOR, Y: mk(e)}
+				}
 			}
 			t := o.clone()
 			t.Conds = append(t.Conds, tag+"=="+strings.Join(labels, "|"))
+			if disj != nil {
+				t.CondX = append(t.CondX, before...)
+				t.CondX = append(t.CondX, CondRec{X: disj, P: o.P, Bytes: copyBytes(o.bytes)})
+				before = append(before, CondRec{X: disj, Neg: true, P: o.P, Bytes: copyBytes(o.bytes)})
+			} else {
+				t.defaultAt = len(t.CondX) // the default clause: every other clause's condition is false (filled in below)
+				t.isDefault = true
+			}
 			outs = append(outs, m.execList(cc.Body, []*Outcome{t})...)
+		}
+		for _, r := range outs {
+			if r.isDefault {
+				r.isDefault = false
+				ins := append([]CondRec(nil), r.CondX[:r.defaultAt]...)
+				ins = append(ins, before...)
+				r.CondX = append(ins, r.CondX[r.defaultAt:]...)
+			}
 		}
 		if !hasDefault && tag != "lex.act" {
 			o.Conds = append(o.Conds, tag+" matches no case")
+			o.CondX = append(o.CondX, before...)
 			outs = append(outs, o)
 		}
 		return outs
